@@ -35,12 +35,15 @@ ASSUMPTIONS = [
 REACT = {"source": {"package": "htmltools", "subdir": "lib/react"},
          "script": [{"src": "react.production.min.js"}],
          "stylesheet": [{"href": "react.production.min.js", "title": "t"}],
-         "meta": [{"name": "m", "content": "c"}], "head": "<link rel=\"x\"/>"}
+         "meta": [{"name": "m", "content": "c"}], "head": "<link rel=\"x\"/>", "all_files": True}
 D1 = ["D", "d", "1.0", REACT]
 D2 = ["D", "d", "2.0", {"head_spec": [["E", "title", True, [], [["T", "t"]]]]}]
 D3 = ["D", "e", "1.0", {"source": {"href": "https://cdn/x"}, "script": {"src": "e.js"}}]
 X1 = ["X", ["E", "div", True, [["id", "x"]], [["T", "exp"], D3]]]
 X2 = ["X", ["L", [["T", "p"], ["E", "span", False, [], []]]]]
+D4 = ["D", "nosrc", "1.0", {"script": [{"src": "my file é.js"}], "stylesheet": {"href": "a b%.css"}}]
+XS_HEAD = ["XS", ["E", "head", True, [], [["E", "title", True, [], [["T", "stored"]]]]]]
+XS_DIV = ["XS", ["E", "div", True, [["class", "st"]], [["T", "s"], D3]]]
 LEAVES = [T("a"), H("<i>h</i>"), D1, D2, X1, X2]
 KINDS = [lambda k: E("div", True, k), lambda k: E("span", False, k), lambda k: E("html", True, k),
          lambda k: E("head", True, k), lambda k: E("body", True, k)]
@@ -58,6 +61,12 @@ CURATED = [
     E("script", True, [T("a<b"), T("c")]),
     E("br", False, []),
     E("div", True, [D1, D1, D2]),
+    # tagifiable objects that hand out the same stored object on every call
+    E("html", True, [XS_HEAD, E("body", True, [T("b"), D4])]),
+    E("div", True, [XS_DIV, T("t"), XS_DIV]),
+    E("body", True, [XS_DIV, E("img", False, [D4], [["src", "i.png"]])]),
+    E("html", True, [E("head", True, []), E("body", True, [E("br", False, [])])]),
+    E("div", True, [T("only text"), D4]),
 ]
 
 
@@ -89,6 +98,15 @@ def _save(x):
         shutil.rmtree(d, ignore_errors=True)
 
 
+def _doc_append(x):
+    """a document built over x is appended to: x itself must not change."""
+    from htmltools import HTMLDocument, Tag
+    d = HTMLDocument(x)
+    d.append(Tag("p", "appended"), "more")
+    d2 = HTMLDocument(x)
+    return (_res(d.render()), _res(d2.render()))
+
+
 def _ops():
     from htmltools import HTMLDocument
     return {
@@ -106,6 +124,7 @@ def _ops():
         "doc(lang).render": lambda x: _res(HTMLDocument(x, lang="en").render()),
         "doc(class).render(noprefix)": lambda x: _res(HTMLDocument(x, class_="k").render(lib_prefix=None, include_version=False)),
         "eq": lambda x: (x == x, x == copy.copy(x)),
+        "doc.append": lambda x: _doc_append(x),
         "save_html": _save,
     }
 
@@ -135,7 +154,7 @@ DEP_OPS = {
 }
 
 OPS_QUICK = ["tagify", "render", "str", "get_html_string", "get_dependencies", "copy",
-             "doc.render", "doc(lang).render", "doc(class).render(noprefix)", "eq"]
+             "doc.render", "doc(lang).render", "doc(class).render(noprefix)", "eq", "doc.append"]
 
 _BASE = {}
 
@@ -148,7 +167,7 @@ def run_op(table, name, x):
 
 
 def nontrivial_spec(spec):
-    return any(n[0] in ("D", "X") for n in walk(spec))
+    return any(n[0] in ("D", "X", "XS") for n in walk(spec))
 
 
 def make_fn_seq(table_fn, builder, key):
@@ -195,7 +214,7 @@ DOCS = [
     ["DOC", [E("html", True, [], [["lang", "de"], ["class", "a"]])], [["lang", "en"], ["class_", "b"]]],
     ["DOC", [X1], [["data_x", True]]],
 ]
-DEPS = [D1, D2, D3, ["D", "n", "0.1", {}],
+DEPS = [D1, D2, D3, D4, ["D", "n", "0.1", {}],
         ["D", "s", "3.0.1", {"source": {"subdir": "/nonexistent/dir"}, "script": [{"src": "a b.js", "defer": ""}],
                              "stylesheet": {"href": "s.css"}, "all_files": True}]]
 
@@ -246,7 +265,7 @@ def meta_paths(x, path=()):
 def fn_independence(spec):
     from htmltools import HTMLDependency
     viols = []
-    has_x = any(n[0] in ("X", "XR") for n in walk(spec))
+    has_x = any(n[0] in ("X", "XR", "XS") for n in walk(spec))
     x = build(spec)
     y = x.tagify()
     sx, sy = snap(x), snap(y)
